@@ -1,0 +1,19 @@
+//go:build verif
+
+// Contracts for govc (contract-based deductive verification); comment-only, compiled only with -tags verif.
+package common
+
+//@ func BytesToUint32
+//@   props C19
+//@   requires len(bytes) <= 4
+//@   requires forall(i, 0, len(bytes), 0 <= bytes[i] && bytes[i] <= 255)
+//@   ensures[value] result == beVal(seq(bytes), 0, len(bytes))
+
+// little-endian commitment bytes: the reversed minimal big-endian bytes of |n|, zero-padded / capped to 32
+//@ func BigIntToLittleEndianBytes
+//@   props C19
+//@   requires n != nil
+//@   ensures[len] len(result) == 32 && off(result) == 0
+//@   ensures[bytes] forall(k, 0, 32, seq(result)[k] == ite(k < bigLen(absInt(bigval(n))), bigBytes(absInt(bigval(n)))[bigLen(absInt(bigval(n))) - 1 - k], 0))
+//@   loop 0 invariant 0 <= i && i <= len(beBytes) && i <= 32 && len(leBytes) == 32 && off(leBytes) == 0
+//@   loop 0 invariant forall(k, 0, 32, seq(leBytes)[k] == ite(k < i, seq(beBytes)[len(beBytes) - 1 - k], 0))
